@@ -96,9 +96,10 @@ def run_steps_protocol(ctx, bt, n, footprint_fields=None, corr_name="run-steps",
 
 def run_days_protocol(ctx, bt, n, footprint_fields=None, corr_name="btday", make_spec=None, build=None, trunc=False):
     """whole generated backtests on the real code; for the backtest's own root and for every shadow copy of a sub-strategy, each
-    day of the loop (`update; if not bankrupt: run; update`) is recorded with the worlds before, between and after, and
-    re-executed by the model's `btDay` (the algos' effect = the recorded world after run(); the model decides whether run() is
-    called at all and performs both updates)."""
+    day of the loop (`update; if not bankrupt: run; update`; on row 0 a shadow copy, like the backtest's own tree, is only
+    updated) is recorded with the worlds before, between and after, and re-executed by the model's `btDay` (root) / `paperDay`
+    (shadow copies) (the algos' effect = the recorded world after run(); the model decides whether run() is called at all and
+    performs the updates)."""
     from . import run_steps as RS
     from .engine_run import model_compare
     batch = []
@@ -123,8 +124,11 @@ def run_days_protocol(ctx, bt, n, footprint_fields=None, corr_name="btday", make
             steps = RS.day_steps(events[k], standalone)
             ctx.count(corr_name + (":root-days" if standalone else ":paper-days"), len(steps))
             for j, st in enumerate(steps):
-                if st["op"]["op"] == "btday":
-                    ctx.count(corr_name + (":ran" if st["op"]["ran"] else ":not-run(bankrupt)"))
+                if st["op"]["op"] in ("btday", "paperday"):
+                    if st["op"]["op"] == "paperday" and st["op"]["d"] == 0:
+                        ctx.count(corr_name + (":paper-row0-RAN" if st["op"]["ran"] else ":paper-row0-update-only"))
+                    else:
+                        ctx.count(corr_name + (":ran" if st["op"]["ran"] else ":not-run(bankrupt)"))
                 batch.append(({"run_spec": spec, "top": "root" if standalone else "paper"}, j, st))
     nc, nd = model_compare(ctx, bt, batch, footprint_fields, None, corr_name, trunc=trunc)
     ctx.protocols.append((corr_name, nc, nd))
